@@ -769,7 +769,7 @@ func TestCheck(t *testing.T) {
 			"depth 1 = L AND|OR R over the 48 key-first leaves (quick: all 1176 unordered pairs incl. L=R; thorough: all 48×48 ordered pairs) + literal-first operands (12×24) and parenthesised operands (all 24×24 ordered pairs) over 24 core leaves; " +
 			"depth 2 (thorough) = A op1 B op2 C over 16 leaves (key a: all 8 code paths =lit,!=lit,='',!='',=~/^x/,!~/^x/,=~/^$/,!~/^$/; 4 each for b and missing) × op1,op2∈{AND,OR} × {no parens (precedence), (A op1 B) op2 C, A op1 (B op2 C)}; " +
 			"× every one of the 2^9 subsets of the 9 series of measurement m over tags a,b∈{x,y,absent} (+5 fixed series of a noise measurement n) stored in a real tsi1 index, " +
-			"in storage variants log (1 partition, L0 log file; all sets), log8 (default 8 partitions; quick every 8th set, thorough every 4th), tsi (1 partition, compacted .tsi index files; quick every 8th set, thorough all), split (thorough: IndexSet of two 8-partition indexes, every 4th set); " +
+			"in storage variants log (1 partition, L0 log file; all sets, all depths), tsi (1 partition, compacted .tsi index files; quick every 8th set; thorough all sets to depth 1 and every 4th set to depth 2), log8 (default 8 partitions; depth<=1; quick every 8th set, thorough every 4th), split (thorough: IndexSet of two 8-partition indexes, depth<=1, every 4th set); " +
 			"queried via IndexSet.MeasurementSeriesByExprIterator (residual Expr, if any, evaluated by the reference); oracle = direct evaluation on each series' tag map with absent tag = ''; " +
 			"non-trivial = the reference selects a non-empty proper subset of the stored m-series (cases distinct by construction)",
 		Assumptions: []string{
@@ -783,25 +783,31 @@ func TestCheck(t *testing.T) {
 	})
 }
 
-func variantsFor(c *vlib.Ctx, mask int) []string {
-	vs := []string{varLog}
+// unitSpec: one (storage variant, family depth) to run for a series set. deep = include the depth-2 family.
+type unitSpec struct {
+	variant string
+	deep    bool
+}
+
+func unitsFor(c *vlib.Ctx, mask int) []unitSpec {
 	if c.Thorough() {
-		vs = append(vs, varTSI)
+		us := []unitSpec{{varLog, true}, {varTSI, mask%4 == 2}}
 		if mask%4 == 1 {
-			vs = append(vs, varLog8)
+			us = append(us, unitSpec{varLog8, false})
 		}
 		if mask%4 == 3 {
-			vs = append(vs, varSplit)
+			us = append(us, unitSpec{varSplit, false})
 		}
-	} else {
-		if mask%8 == 1 {
-			vs = append(vs, varLog8)
-		}
-		if mask%8 == 5 {
-			vs = append(vs, varTSI)
-		}
+		return us
 	}
-	return vs
+	us := []unitSpec{{varLog, false}}
+	if mask%8 == 1 {
+		us = append(us, unitSpec{varLog8, false})
+	}
+	if mask%8 == 5 {
+		us = append(us, unitSpec{varTSI, false})
+	}
+	return us
 }
 
 // ex is one member of the expression family: the harness tree, its InfluxQL text and the text parsed by the
@@ -813,10 +819,15 @@ type ex struct {
 	expr  influxql.Expr
 }
 
-func family(thorough bool) ([]ex, error) {
+// family returns the expressions of the tier in enumeration order and the length of the depth<=1 prefix.
+func family(thorough bool) ([]ex, int, error) {
 	var out []ex
 	var ferr error
+	nShallow := 0
 	forEachExpr(thorough, func(n *Node) {
+		if n.Leaf != nil || (n.L.Leaf != nil && n.R.Leaf != nil) {
+			nShallow = len(out) + 1
+		}
 		t := n.text()
 		e, err := influxql.ParseExpr(t)
 		if err != nil && ferr == nil {
@@ -824,7 +835,7 @@ func family(thorough bool) ([]ex, error) {
 		}
 		out = append(out, ex{n, t, n.shape(), e})
 	})
-	return out, ferr
+	return out, nShallow, ferr
 }
 
 func run(c *vlib.Ctx) {
@@ -835,7 +846,7 @@ func run(c *vlib.Ctx) {
 	// GC left at the Go default: larger heaps (GOGC>=1600) were measured 4x slower here (page-fault churn of the
 	// ~0.4 MB of short-lived roaring containers the index allocates per query).
 	t0 := time.Now()
-	fam, err := family(c.Thorough())
+	fam, nShallow, err := family(c.Thorough())
 	c.Logf("family: %d exprs in %v", len(fam), time.Since(t0))
 	if err != nil {
 		c.HarnessError(err.Error())
@@ -863,7 +874,12 @@ func run(c *vlib.Ctx) {
 	sort.SliceStable(masks, func(i, j int) bool { return pop(masks[i]) < pop(masks[j]) })
 	var unit int64
 	for _, mask := range masks {
-		for _, variant := range variantsFor(c, mask) {
+		for _, us := range unitsFor(c, mask) {
+			variant := us.variant
+			exprs := fam
+			if !us.deep && nShallow < len(fam) {
+				exprs = fam[:nShallow]
+			}
 			unit++
 			if !c.Mine(unit) {
 				continue
@@ -880,7 +896,7 @@ func run(c *vlib.Ctx) {
 			}
 			topen := time.Since(tu)
 			p, d := vlib.Guard(func() {
-				for xi, x := range fam {
+				for xi, x := range exprs {
 					if xi%256 == 255 && c.Expired() {
 						c.Cap("wall budget reached inside a (series set, variant) unit: that unit covers only a simplest-first prefix of the expression family")
 						break
